@@ -1,5 +1,5 @@
 //! Functions for writing output in ska lo
-use hashbrown::{HashMap, HashSet};
+use hashbrown::HashMap;
 use std::fs::File;
 use std::io::Write;
 
@@ -109,13 +109,15 @@ pub fn create_fasta_and_vcf(
         .expect("Error writing VCF header");
 
         for (pos, reference_base, vec_chars) in vcf_records {
-            let alt_bases: Vec<char> = vec_chars
+            // deduplicate alternative bases, in a fixed order so that repeated runs
+            // write the same ALT column and genotype indices
+            let mut alt_bases: Vec<char> = vec_chars
                 .iter()
                 .cloned()
                 .filter(|&c| c != reference_base && c != '-' && c != 'N')
-                .collect::<HashSet<_>>() // deduplicate alternative bases
-                .into_iter()
                 .collect();
+            alt_bases.sort_unstable();
+            alt_bases.dedup();
 
             let genotypes: Vec<String> = vec_chars
                 .iter()
